@@ -8,6 +8,7 @@ import (
 	"errors"
 	"fmt"
 	"os"
+	"os/exec"
 	"os/signal"
 	"strings"
 	"sync"
@@ -535,6 +536,13 @@ func scenTerm(out *scenOut, r *rng, thorough bool) {
 		}(s)
 	}
 	wg.Wait()
+	for _, exit := range []string{"quit-msg", "quit-call", "interrupt-msg", "user-then-quit"} {
+		execReleaseFails(out, exit)
+	}
+	for _, cause := range []string{"ctx", "quit-call", "kill"} {
+		termDuringStartup(out, cause, false)
+		termDuringStartup(out, cause, true)
+	}
 	// signals: one program at a time
 	sigs := []termScenario{
 		{"sigint", "idle", "none", "blocking"}, {"sigterm", "idle", "none", "blocking"},
@@ -675,6 +683,9 @@ func scenAPI(out *scenOut, r *rng, thorough bool) {
 	// arriving after it must all return.
 	ttyFail(out)
 	uncaughtPanic(out)
+	for _, how := range []string{"ctx-before-run", "kill-before-run"} {
+		endedBeforeItBegan(out, how)
+	}
 	// "Before the program starts, Send blocks until it is running"
 	ctl := newRecCtl()
 	p := tea.NewProgram(recModel{c: ctl}, tea.WithInput(nil), tea.WithOutput(&safeBuffer{}), tea.WithoutSignalHandler())
@@ -834,5 +845,201 @@ func ttyFail(out *scenOut) {
 		out.fail(finding{Property: "C13", Class: "new", What: "calls never return after Run ended with a start-up failure (input terminal cannot be opened)",
 			Input:    "NewProgram(m, WithInputTTY()) in a process without a controlling terminal; callers: " + strings.Join(stuck, ","),
 			Expected: "every call returns once the program has ended", Observed: strings.Join(stuck, ",") + " still blocked"})
+	}
+}
+
+// startupWriter runs `hit` on the first write it sees (the mode sequences Run writes before the
+// renderer has been started) and keeps that write open for a moment.
+type startupWriter struct {
+	safeBuffer
+	once sync.Once
+	hit  func()
+}
+
+func (w *startupWriter) Write(p []byte) (int, error) {
+	w.once.Do(func() {
+		w.hit()
+		time.Sleep(40 * time.Millisecond)
+	})
+	return w.safeBuffer.Write(p)
+}
+
+// termDuringStartup: the termination cause strikes inside the output writer while Run is still
+// starting up (the terminal modes are being set; the renderer exists but has not been started).
+// Runs in a child process: what can go wrong here includes a fatal runtime error.
+func termDuringStartup(out *scenOut, cause string, alt bool) {
+	desc := fmt.Sprintf("%s strikes inside the output writer while Run sets the terminal modes at start-up (renderer not started yet), alt=%v", cause, alt)
+	self, _ := os.Executable()
+	cmd := exec.Command(self, "child", "startupterm", cause, fmt.Sprint(alt))
+	cmd.Env = os.Environ()
+	var outb strings.Builder
+	cmd.Stdout = &outb
+	cmd.Stderr = &outb
+	if err := cmd.Start(); err != nil {
+		return
+	}
+	done := make(chan error, 1)
+	go func() { done <- cmd.Wait() }()
+	var err error
+	select {
+	case err = <-done:
+	case <-time.After(20 * time.Second):
+		cmd.Process.Kill()
+		err = errors.New("child did not finish in 20s")
+	}
+	out.record("startup-write/"+cause+fmt.Sprint(alt), desc)
+	got := outb.String()
+	want := "killed"
+	if cause == "quit-call" {
+		want = "nil"
+	}
+	switch {
+	case strings.Contains(got, "STARTUP-RESULT "+want+" restored=true"):
+	case strings.Contains(got, "STARTUP-RESULT "):
+		line := got[strings.Index(got, "STARTUP-RESULT "):]
+		if j := strings.IndexByte(line, '\n'); j >= 0 {
+			line = line[:j]
+		}
+		if !strings.Contains(line, "STARTUP-RESULT "+want+" ") {
+			out.fail(finding{Property: "C04", Class: "new", What: "wrong Run result", Input: desc, Expected: want, Observed: line})
+		}
+		if !strings.Contains(line, "restored=true") {
+			out.fail(finding{Property: "C05", Class: "new", What: "terminal modes not restored when Run returns after a termination cause that struck during start-up", Input: desc, Expected: "all modes off, cursor shown", Observed: line})
+		}
+	default:
+		tail := got
+		for _, mark := range []string{"fatal error:", "panic:", "STARTUP-HANG"} {
+			if i := strings.Index(tail, mark); i >= 0 {
+				tail = tail[i:]
+				break
+			}
+		}
+		if len(tail) > 700 {
+			tail = tail[:700]
+		}
+		f := finding{Class: "new", What: "a termination cause that struck during start-up: Run did not return (the process died or hangs)", Input: desc,
+			Expected: "Run returns " + want + " with the terminal restored", Observed: fmt.Sprint(err) + " :: " + strings.ReplaceAll(tail, "\n", " / ")}
+		for _, p := range []string{"C04", "C05"} {
+			f.Property = p
+			out.fail(f)
+		}
+	}
+}
+
+func childStartupTerm(cause string, alt bool) int {
+	if f, err := os.OpenFile(os.DevNull, os.O_WRONLY, 0); err == nil {
+		os.Stdout = f
+	}
+	ctl := newRecCtl()
+	ctx, cancel := context.WithCancel(context.Background())
+	defer cancel()
+	var p *tea.Program
+	ready := make(chan struct{})
+	w := &startupWriter{}
+	w.hit = func() {
+		<-ready
+		switch cause {
+		case "kill":
+			go p.Kill()
+		case "ctx":
+			cancel()
+		case "quit-call":
+			go p.Quit()
+		}
+	}
+	opts := []tea.ProgramOption{tea.WithOutput(w), tea.WithInput(nil), tea.WithoutSignalHandler(), tea.WithContext(ctx)}
+	if alt {
+		opts = append(opts, tea.WithAltScreen())
+	}
+	p = tea.NewProgram(recModel{c: ctl}, opts...)
+	close(ready)
+	done := make(chan error, 1)
+	go func() { _, err := p.Run(); done <- err }()
+	select {
+	case err := <-done:
+		time.Sleep(100 * time.Millisecond) // a Kill goroutine still inside its own shutdown
+		t := newVterm(80, 24)
+		t.write([]byte(w.safeBuffer.String()))
+		got := vtModes(t)
+		fmt.Fprintf(os.Stderr, "STARTUP-RESULT %s restored=%v (%s)\n", errClass(err), got == (modeSpec{}).String(), got)
+		return 0
+	case <-time.After(6 * time.Second):
+		fmt.Fprintf(os.Stderr, "STARTUP-HANG Run still running after 6s\n%s\n", goroutineDump())
+		return 1
+	}
+}
+
+func init() {
+	prev := childMain
+	childMain = func(args []string) int {
+		if len(args) == 3 && args[0] == "startupterm" {
+			return childStartupTerm(args[1], args[2] == "true")
+		}
+		return prev(args)
+	}
+}
+
+// endedBeforeItBegan: the program's context is cancelled (or Kill is called) BEFORE Run; Run
+// returns at once with ErrProgramKilled, and then every API call returns, Wait included.
+func endedBeforeItBegan(out *scenOut, how string) {
+	ctl := newRecCtl()
+	ctx, cancel := context.WithCancel(context.Background())
+	defer cancel()
+	p := tea.NewProgram(recModel{c: ctl}, tea.WithInput(nil), tea.WithOutput(&safeBuffer{}), tea.WithoutSignalHandler(), tea.WithContext(ctx))
+	desc := how + ": the program is ended before Run is called; then Run, then Wait x3 / Send / Quit / Println / Printf"
+	if how == "ctx-before-run" {
+		cancel()
+	} else {
+		killed := make(chan struct{})
+		go func() { p.Kill(); close(killed) }()
+		select {
+		case <-killed:
+		case <-time.After(3 * time.Second):
+			out.fail(finding{Property: "C13", Class: "new", What: "Kill before Run never returns", Input: desc})
+			return
+		}
+	}
+	runDone := make(chan error, 1)
+	go func() { _, err := p.Run(); runDone <- err }()
+	out.record("ended-before-run/"+how, desc)
+	select {
+	case err := <-runDone:
+		if got := errClass(err); got != "killed" {
+			out.fail(finding{Property: "C04", Class: "new", What: "wrong Run result", Input: desc, Expected: "killed", Observed: got})
+		}
+	case <-time.After(4 * time.Second):
+		out.fail(finding{Property: "C04", Class: "new", What: "Run does not return although the program was ended before it started", Input: desc, Observed: goroutineDump()})
+		return
+	}
+	type call struct {
+		name string
+		done chan struct{}
+	}
+	var calls []call
+	start := func(name string, f func()) {
+		c := call{name, make(chan struct{})}
+		calls = append(calls, c)
+		go func() { f(); close(c.done) }()
+	}
+	for i := 0; i < 3; i++ {
+		start(fmt.Sprintf("wait#%d", i), p.Wait)
+	}
+	start("send", func() { p.Send(userMsg{7, 2}) })
+	start("quit", p.Quit)
+	start("println", func() { p.Println("x") })
+	start("printf", func() { p.Printf("%d", 1) })
+	deadline := time.After(3 * time.Second)
+	var stuck []string
+	for _, c := range calls {
+		select {
+		case <-c.done:
+		case <-deadline:
+			stuck = append(stuck, c.name)
+			deadline = time.After(time.Millisecond)
+		}
+	}
+	if len(stuck) > 0 {
+		out.fail(finding{Property: "C13", Class: "new", What: "API calls never return although Run has returned (program ended before it began)", Input: desc,
+			Expected: "every call returns once the program has ended", Observed: strings.Join(stuck, ",")})
 	}
 }
